@@ -354,7 +354,7 @@ def judge_history(spec, tokens, res, viol, ent=None):
 
 
 def keygen_history(rng: Rng, res, viol, tier):
-    from joserfc.jwk import OctKey, RSAKey, ECKey, OKPKey, JWKRegistry
+    from joserfc.jwk import OctKey, RSAKey, ECKey, OKPKey, JWKRegistry, KeySet
     n = 24 if tier == "quick" else 200
     which = rng.pick(["oct", "oct", "EC", "EC", "OKP", "OKP", "RSA"])
     mats, raw = [], []
@@ -362,7 +362,13 @@ def keygen_history(rng: Rng, res, viol, tier):
         bits = rng.pick([8, 16, 64, 128, 192, 256, 384, 512, 72, 136, 200, 520, 8 * rng.randrange(8, 130)])
         n = max(n, 140) if bits >= 64 else n
         for i in range(n):
-            k = OctKey.generate_key(bits) if i % 2 else JWKRegistry.generate_key("oct", bits)
+            # the template of the JWK (what the key is *meant* for) has no say in how much key is generated
+            tmpl = rng.pick([None, None, {"alg": rng.pick(["HS256", "HS384", "HS512", "A128KW", "A192KW", "A256KW", "A128GCMKW", "A256GCMKW", "dir",
+                                                            "A128GCM", "A256GCM", "A128CBC-HS256", "A256CBC-HS512", "PBES2-HS256+A128KW"])},
+                             {"use": "sig", "kid": "k%d" % i}, {"alg": "HS256", "use": "sig", "key_ops": ["sign", "verify"]}])
+            k = OctKey.generate_key(bits, tmpl) if i % 2 else JWKRegistry.generate_key("oct", bits, tmpl)
+            if i % 7 == 3:
+                k = KeySet.generate_key_set("oct", bits, tmpl, count=2).keys[i % 2]
             v = k.raw_value
             if len(v) * 8 != bits:
                 viol("keygen:oct-size", "generated oct key has %d bits, %d requested" % (len(v) * 8, bits), i)
@@ -375,7 +381,8 @@ def keygen_history(rng: Rng, res, viol, tier):
         # every multiple of 8 is a legal request: the modulus has the requested size, not a "normalised" one
         bits = rng.pick([1024, 2048, 1032, 1096, 1536, 2056, 2104, 8 * rng.randrange(64, 260)])
         for i in range(3 if tier == "quick" else 6):
-            k = RSAKey.generate_key(bits) if i % 2 == 0 else JWKRegistry.generate_key("RSA", bits)
+            tmpl = rng.pick([None, {"alg": rng.pick(["RS256", "PS512", "RSA-OAEP", "RSA-OAEP-512", "RSA1_5"])}, {"use": "enc"}])
+            k = RSAKey.generate_key(bits, tmpl) if i % 2 == 0 else JWKRegistry.generate_key("RSA", bits, tmpl)
             nn = k.raw_value.private_numbers().public_numbers.n
             if nn.bit_length() != bits:
                 viol("keygen:rsa-size", "generated RSA modulus has %d bits, %d requested" % (nn.bit_length(), bits), i)
@@ -383,7 +390,8 @@ def keygen_history(rng: Rng, res, viol, tier):
     elif which == "EC":
         crv = rng.pick(["P-256", "P-384", "P-521", "secp256k1"])
         for i in range(n):
-            k = ECKey.generate_key(crv, private=bool(i % 3))
+            tmpl = rng.pick([None, {"alg": rng.pick(["ES256", "ES384", "ES512", "ES256K", "ECDH-ES", "ECDH-ES+A256KW"])}, {"use": "sig"}])
+            k = ECKey.generate_key(crv, tmpl, private=bool(i % 3))
             if k.curve_name != crv:
                 viol("keygen:ec-curve", "generated EC key is on %s, %s requested" % (k.curve_name, crv), i)
             m = K.from_jose(k)
@@ -391,7 +399,8 @@ def keygen_history(rng: Rng, res, viol, tier):
     else:
         crv = rng.pick(["Ed25519", "Ed448", "X25519", "X448"])
         for i in range(n):
-            k = OKPKey.generate_key(crv)
+            tmpl = rng.pick([None, {"alg": rng.pick(["EdDSA", "ECDH-ES", "ECDH-ES+A128KW"])}, {"use": rng.pick(["sig", "enc"])}])
+            k = OKPKey.generate_key(crv, tmpl)
             if k.curve_name != crv:
                 viol("keygen:okp-curve", "generated OKP key is on %s, %s requested" % (k.curve_name, crv), i)
             mats.append(rk.raw_public(K.from_jose(k).pub))
